@@ -45,6 +45,35 @@ Proof.
 Qed.
 Print Assumptions C04_accept_implies_checks.
 
+(* msg_ids are 64-bit patterns in the model ([of_le] of 8 bytes, < 2^64).  The parity the theorems
+   speak of - [server_parity], n mod 4 in {1, 3} on the UNSIGNED pattern - is exactly what Go's
+   "id & 3" computes on the SIGNED int64, also for negative ids (bit 63 set, i.e. unixtime >= 2^31):
+   two's complement keeps the low bits.  So C04_accept_implies_checks and C03_client_opens_server
+   cover negative msg_ids explicitly.  (Go's signed remainder "id % 4" would differ: see the
+   Examples C04_negative_ids below.) *)
+Theorem C04_parity_is_low_bits_of_signed_id : forall n, n < 2 ^ 64 ->
+  server_parity n = go_parity n /\ Z.land (to_i64 n) 3 = Z.of_N (n mod 4).
+Proof. intros n H. split; [apply server_parity_signed|apply land3_signed]; exact H. Qed.
+Print Assumptions C04_parity_is_low_bits_of_signed_id.
+
+(* every accepted message has server parity - stated on the message itself, for Go's signed
+   view of the id too.  Premise: IGE decryption returns bytes (so that the 8-byte msg_id field is
+   a 64-bit pattern); nothing else is asked of SHA-1 or AES. *)
+Theorem C04_accepted_has_server_parity : forall sha1 ige_d key pkt m,
+  (forall k iv d, Forall (fun b => b < 256) (ige_d k iv d)) ->
+  open_client sha1 ige_d key pkt = Ok m ->
+  e_msgid m < 2 ^ 64 /\ server_parity (e_msgid m) = true /\ go_parity (e_msgid m) = true.
+Proof.
+  intros sha1 ige_d key pkt m Hb H.
+  destruct (accept_inv sha1 ige_d key pkt m H) as (_ & _ & dec & Ed & Hrest). cbv zeta in Hrest.
+  destruct Hrest as (_ & _ & Hp & ->). cbn [e_msgid].
+  destruct (decrypt_ok_inv sha1 ige_d _ _ _ _ Ed) as (k & iv & _ & Hdec & _).
+  assert (Hlt : of_le (slice dec 16 24) < 2 ^ 64)
+    by (subst dec; exact (of_le_slice8_lt _ 16 (Hb k iv _))).
+  split; [exact Hlt|]. split; [exact Hp|]. rewrite <- server_parity_signed by exact Hlt. exact Hp.
+Qed.
+Print Assumptions C04_accepted_has_server_parity.
+
 (* For ALL packets (any length, any content) and every auth key of at least 136 bytes (the
    session key has 256) the receive path never panics: it returns a message or an error.
    (generateAESIGE panics on keys shorter than 136 bytes; that is the only precondition.) *)
@@ -101,6 +130,22 @@ Definition srv_packet : bytes :=
 Example C04_accepts_valid :
   omap fields_of (open_client sha1 x_ige_d test_key srv_packet) = Ok (7, 9, 125, 3, test_body).
 Proof. vm_compute. reflexivity. Qed.
+
+(* negative msg_ids (bit 63 set) x the four low-bit patterns: a conformant server's packet is
+   accepted iff the low bits are 01 or 11; Go's signed remainder is not the parity *)
+Definition srv_packet_id (msgid : N) : bytes :=
+  seal_server sha1 x_ige_e test_key 7 9 msgid 3 test_body (hex "a1b2c3d4e5f60718aa").
+
+Example C04_negative_ids :
+  map (fun low => is_ok (open_client sha1 x_ige_d test_key (srv_packet_id (2 ^ 63 + 4 * 1234567 + low)))) [0; 1; 2; 3]
+    = [false; true; false; true] /\
+  map (fun low => is_ok (open_client sha1 x_ige_d test_key (srv_packet_id (2 ^ 64 - 4 + low)))) [0; 1; 2; 3]
+    = [false; true; false; true] /\
+  map (fun low => is_ok (deserialize_unencrypted (serialize_unencrypted (2 ^ 63 + 8 + low) test_body))) [0; 1; 2; 3]
+    = [false; true; false; true] /\
+  to_i64 (2 ^ 64 - 2) = (-2)%Z /\ Z.rem (to_i64 (2 ^ 64 - 2)) 4 = (-2)%Z /\ Z.land (to_i64 (2 ^ 64 - 2)) 3 = 2%Z /\
+  to_i64 (2 ^ 64 - 1) = (-1)%Z /\ Z.rem (to_i64 (2 ^ 64 - 1)) 4 = (-1)%Z /\ Z.land (to_i64 (2 ^ 64 - 1)) 3 = 3%Z.
+Proof. vm_compute. repeat split; reflexivity. Qed.
 
 Definition flip_bit0 (i : nat) (l : bytes) : bytes :=
   firstn i l ++ match skipn i l with [] => [] | b :: r => N.lxor b 1 :: r end.
